@@ -68,7 +68,7 @@ _CFG = {
     "C16": {"scenarios": ["filter"], "streams": [PTRACE], "trusted": RUNTIME_TRUST},
     "C17": {"scenarios": ["exec"], "streams": [GLUE], "trusted": RENDER_TRUST + ["input hand-over to the exec'd command depends on cancelreader/epoll semantics: observed on an os.Pipe, not proved"]},
     "C18": {"scenarios": ["pty", "term", "sigexec"], "trusted": RUNTIME_TRUST + ["kernel signal delivery, os/signal.Notify, TIOCGWINSZ/SIGWINCH are outside the model: observed on a pty, not proved"]},
-    "C19": {"streams": [RENDER_LE, {"name": "fps", "quick": 2000, "thorough": 100000}], "rule": RENDER_RULE, "trusted": RENDER_TRUST},
+    "C19": {"streams": [RENDER_LE, {"name": "fps", "quick": 2000, "thorough": 100000}], "scenarios": ["frames"], "rule": RENDER_RULE, "trusted": RENDER_TRUST},
     "C20": {"streams": [{"name": "every", "quick": 6000, "thorough": 200000}], "scenarios": ["timing"],
             "rule": "every: Every's delay expression evaluated by Go's time package vs the Lean model on boundary instants (+-1ns), zero/negative/huge durations and seeded random instants; timing: real Tick/Every commands. distinct = distinct (instant, duration) lines; non-trivial = positive duration",
             "trusted": ["Go timers do not fire before their duration has elapsed (Timer.notEarly hypothesis; sampled by the timing scenario)"]},
